@@ -6,7 +6,7 @@ from fractions import Fraction
 
 from sa.report import Cx
 from sa.walker import WalkOptions
-from sa.terms import (Sym, Attr, Sub, App, Num, Fresh, ACmp, AIn, FNot, f_and, f_not, compare, mk_cmp, FTrue, neg)
+from sa.terms import (Sym, Attr, Sub, App, Num, Fresh, ACmp, AIn, FNot, f_and, f_not, compare, mk_cmp, FTrue, neg, implies)
 from .common import (CORE, COLL, check_atomic, check_forwarding_chain, const_default, strip_versions,
                      scheduler_paths, exec_sites, classify_iterable, queue_term)
 
@@ -90,7 +90,7 @@ def run(cx: Cx):
         desc = s.describe()
         if k == 'rebind':
             v = s.ev.data.get('value')
-            if s.fn.qualname == sm.qualname + '.__init__' and isinstance(v, Fresh) and v.kind == 'list' and not v.items:
+            if s.owner_q == sm.qualname + '.__init__' and isinstance(v, Fresh) and v.kind == 'list' and not v.items:
                 cx.ok('R-DISC', 'queue initialised empty', where=s.where, function=s.fn.qualname)
                 n_ok += 1
             else:
@@ -101,14 +101,14 @@ def run(cx: Cx):
             cx.ok('R-DISC', f"queue element removal ({k}) preserves order", where=s.where, function=s.fn.qualname)
             n_ok += 1
         elif k in ('insert', 'append'):
-            if s.fn.qualname == add.qualname:
+            if s.owner_q == add.qualname:
                 n_ok += 1      # verified by clause 2
             else:
                 cx.violation('R-DISC', s.fn.qualname, f"execution_queue-{k}-outside-add_system",
                              f"{desc}: a queue insertion outside the verified insertion of add_system",
                              where=s.where)
         elif k == 'sort':
-            if s.fn.qualname == add.qualname and _sort_key_ok(s.ev):
+            if s.owner_q == add.qualname and _sort_key_ok(s.ev):
                 cx.ok('R-DISC', 'stable sort by descending priority', where=s.where, function=s.fn.qualname)
                 n_ok += 1
             else:
@@ -126,7 +126,7 @@ def run(cx: Cx):
 
     # no package code rewrites a priority after construction
     for s in cx.effects.sites_of((CORE + 'System', 'priority')):
-        if s.fn.name != '__init__':
+        if s.owner_name != '__init__':
             cx.violation('R-DISC', s.fn.qualname, 'priority-rewritten',
                          f"{s.describe()}: System.priority is written outside a constructor", where=s.where)
         else:
@@ -162,6 +162,8 @@ def run(cx: Cx):
                      f"last-in-first-out)", where=cx.where(add))
     elif shape == 'bisect':
         cx.ok('R-GUARD', 'bisect.insort_right keyed by descending priority', where=cx.where(add), function=add.qualname)
+    elif shape == 'next':
+        _check_next_idiom(cx, add, ps, Q, s_sym)
     n_success = 0
     for p in ps:
         if p.end == 'raise':
@@ -296,10 +298,10 @@ def run(cx: Cx):
     # registry discipline package-wide
     rsites = cx.effects.sites_of(RLOC)
     for s in rsites:
-        if s.fn.qualname in (add.qualname, rem.qualname):
+        if s.owner_q in (add.qualname, rem.qualname):
             continue
         v = s.ev.data.get('value')
-        if s.kind == 'rebind' and s.fn.qualname == sm.qualname + '.__init__' and isinstance(v, Fresh) and v.kind == 'dict' \
+        if s.kind == 'rebind' and s.owner_q == sm.qualname + '.__init__' and isinstance(v, Fresh) and v.kind == 'dict' \
                 and not v.items:
             cx.ok('R-DISC', 'registry initialised empty', where=s.where, function=s.fn.qualname)
         else:
@@ -364,6 +366,54 @@ def run(cx: Cx):
             cx.inconclusive('R-FWD', f"{c} default priority", "default priority is not a constant", where=cx.where(ctor))
 
 
+def _check_next_idiom(cx, add, ps, Q, s_sym):
+    """position = next((i for i in range(len(q)) if new.priority > q[i].priority), None); insert(position) if found, else
+    append: the generator yields scan indices in ascending order, so `next` is the first strictly lower entry."""
+    from sa.terms import AIs, Const, CompInfo
+    okk = True
+    for p in ps:
+        if p.end == 'raise':
+            continue
+        ins = [e for e in p.events if e.kind == 'store' and e.data.get('loc') == QLOC and e.data.get('store') in ('insert', 'append')]
+        if len(ins) != 1:
+            continue        # reported by the exactly-one-insertion rule
+        e = ins[0]
+        keys = {repr(x.data.get('key')): x.data.get('key') for x in p.events if x.kind == 'store' and x.data.get('store') == 'insert'}
+        nexts = [ev.data.get('result') for ev in p.events if ev.kind == 'call' and ev.data.get('callee_name') == 'builtins.next']
+        K = e.data.get('key') if e.data.get('store') == 'insert' else (nexts[0] if nexts else None)
+        if K is None or not (isinstance(K, App) and K.fn == 'next' and len(K.args) == 2 and K.args[1] == Const(None)
+                             and isinstance(K.args[0], Fresh) and isinstance(K.args[0].detail, CompInfo)):
+            cx.inconclusive('R-GUARD', 'add_system first-match idiom', f"the insertion position {K!r} is not next(<generator>, None)",
+                            where=cx.where(add, e.line), function=add.qualname)
+            return
+        d = K.args[0].detail
+        tgt, src, conds = d.gens[0] if len(d.gens) == 1 else (None, None, None)
+        shape_ok = isinstance(src, App) and src.fn == 'range' and (
+            src.args == (App('len', (Q,)),) or src.args == (Num(Fraction(0)), App('len', (Q,))))
+        M = mk_cmp(Attr(s_sym, 'priority'), '>', Attr(Sub(Q, tgt), 'priority')) if tgt is not None else None
+        if not (shape_ok and d.elt == tgt and compare(f_and(*conds), M, domain='int') is None):
+            cx.violation('R-GUARD', add.qualname, 'match-test-strictly-greater-priority',
+                         f"add_system: the first-match generator yields {d.elt!r} for {tgt!r} in {src!r} if {[repr(c) for c in (conds or ())]}; "
+                         f"first-strictly-lower insertion needs the scan index i over range(len(queue)) under "
+                         f"new.priority > queue[i].priority", where=cx.where(add, e.line), path=p.lines())
+            okk = False
+            break
+        found = f_not(AIs(K, Const(None)))
+        if e.data.get('store') == 'insert':
+            good = implies(p.cond, found) is None and e.data.get('value') == s_sym
+        else:
+            good = implies(p.cond, f_not(found)) is None and e.data.get('key') == s_sym
+        if not good:
+            cx.violation('R-GUARD', add.qualname, 'insert-at-first-match-else-append',
+                         f"add_system: {e.data.get('store')} happens under [{p.cond!r}]; the system must be inserted at the first match "
+                         f"when there is one and appended at the tail otherwise", where=cx.where(add, e.line), path=p.lines())
+            okk = False
+            break
+    if okk:
+        cx.ok('R-GUARD', 'first-match idiom: next(<ascending scan indices with strictly greater priority>, None), insert there else append',
+              where=cx.where(add), function=add.qualname)
+
+
 def _insertion_shape(cx, add, ps):
     """Which verified insertion idiom add_system uses: 'scan' | 'bisect' | 'bisect-left' | 'unknown'."""
     has_while = any(isinstance(n, ast.While) for n in ast.walk(add.node))
@@ -386,10 +436,17 @@ def _insertion_shape(cx, add, ps):
                     kinds.add('bisect-left' if k == 'insort_left' else 'bisect')
                 elif k == 'insert':
                     if not e.loops:
+                        key = e.data.get('key')
+                        if isinstance(key, App) and key.fn == 'next' and len(key.args) == 2 and isinstance(key.args[0], Fresh) \
+                                and key.args[0].kind == 'gen':
+                            kinds.add('next')
+                            continue
                         return 'unknown', f"queue.insert at line {e.line} is not inside a scan loop over the queue"
                     kinds.add('scan')
                 elif k in ('append', 'sort'):
                     kinds.add('scan')
+    if 'next' in kinds:
+        return 'next', 'first match of a generator over the scan'
     if 'bisect-left' in kinds:
         return 'bisect-left', 'bisect.insort_left'
     if 'bisect' in kinds:
